@@ -54,6 +54,14 @@ def check(run):
                     run.findings.append(Finding("C04.py.native_sweep", problems[0].split("[")[0][:40], f"shape n,c,k={shp} control_none={cn}: {problems[0]}", {"language": "python", "inputs": {"shape": list(shp), "seed": run.seed, "control_none": cn}, "model_definition": sc.describe(), "oracle_verdict": problems[:5]}, True))
         run.bounded.append({"what": "native process_model on generic models vs exact rational textbook prediction; repeat call; inputs unmodified", "bound": f"{len(shapes)} shapes x control given/None, one point each", "failures": fails, "counted_as_proved": False})
 
+    # principal-branch folding (asin(sin a), atan(tan b), sqrt(a^2), acos(cos(a+b))) at points outside the principal range (always run):
+    # a rewrite that is only valid on the principal branch moves the predicted state away from f(x, u)
+    run.native_runs += 1
+    bp, bsc = kalman.native_predict((3, 1, 2), run.seed, branchy=True)
+    run.bounded.append({"what": "native process_model of a model with principal-branch folding, at a point outside the principal range and away from the kinks, vs the exact prediction", "bound": "1 model, one point", "failures": len(bp), "counted_as_proved": False})
+    for p in bp[:1]:
+        run.findings.append(Finding("C04.py.native_branch_folding", "branchy", f"model with asin(sin a), atan(tan b), sqrt(a^2), acos(cos(a+b)) terms: {p}", {"language": "python", "inputs": {"shape": [3, 1, 2], "seed": run.seed, "branchy": True}, "model_definition": bsc.describe(), "oracle_verdict": bp[:4]}, True))
+
     from checks.ekf_common import dtype_sweep, stateful_sweep
 
     dtype_sweep(run, "C04", ("predicted",))
@@ -74,6 +82,10 @@ def replay_file(payload):
         from checks.ekf_common import replay_sequence
 
         return replay_sequence(inp)
+    if inp.get("branchy"):
+        problems, sc = kalman.native_predict(tuple(inp["shape"][:3]), inp.get("seed", 0), branchy=True)
+        print("replay C04 (principal-branch folding):", problems[:4] if problems else "prediction equals the textbook formulas")
+        return not problems
     problems, sc = native(tuple(inp["shape"][:3]), inp.get("seed", 0), inp.get("control_none", False))
     print("replay C04:", problems[:4] if problems else "prediction equals the textbook formulas")
     return not problems
